@@ -29,9 +29,13 @@ def validate_dec_trace(res, trace, tag, profile="release", module="Trace_Dec", d
     res.traces += checked
     res.profiles.add(profile)
     recs = fetch_records(trace, [m[0] for m in mism])
-    for i, clause in mism:
+    for m in mism:
+        i, clause = m[0], m[1]
         rec = recs.get(i, {"i": i})
-        res.report(descriptor(rec, clause), rec, clause)
+        d = descriptor(rec, clause)
+        if len(m) > 2:
+            d["extra"] = m[2]
+        res.report(d, rec, clause)
     return mism
 
 
